@@ -1,8 +1,117 @@
 //! Execute one request line against the real crate; canonical one-line reply.
 use crate::util::*;
-use packing::Transform2;
-use nalgebra::Matrix3;
+use nalgebra::{Matrix3, Point2};
+use packing::traits::Basis;
+use packing::wallpaper::WyckoffSite;
+use packing::{Cell2, OccupiedSite, StandardBasis, Transform2};
+use serde_json::{json, Value};
 use std::panic::{catch_unwind, AssertUnwindSafe};
+
+/// cursor over request tokens
+pub struct Toks<'a> {
+    pub t: &'a [&'a str],
+    pub i: usize,
+}
+
+impl<'a> Toks<'a> {
+    pub fn new(t: &'a [&'a str]) -> Self {
+        Toks { t, i: 0 }
+    }
+    pub fn s(&mut self) -> Option<&'a str> {
+        let r = self.t.get(self.i).copied();
+        self.i += 1;
+        r
+    }
+    pub fn f(&mut self) -> Option<f64> {
+        unfhex(self.s()?)
+    }
+    pub fn i64(&mut self) -> Option<i64> {
+        self.s()?.parse().ok()
+    }
+    pub fn u64(&mut self) -> Option<u64> {
+        self.s()?.parse().ok()
+    }
+    pub fn usize(&mut self) -> Option<usize> {
+        self.s()?.parse().ok()
+    }
+    pub fn mat(&mut self) -> Option<Transform2> {
+        let mut v = [0f64; 9];
+        for k in 0..9 {
+            v[k] = self.f()?;
+        }
+        Some(Transform2::from(Matrix3::new(
+            v[0], v[1], v[2], v[3], v[4], v[5], v[6], v[7], v[8],
+        )))
+    }
+    pub fn mats(&mut self) -> Option<Vec<Transform2>> {
+        let n = self.usize()?;
+        let mut v = Vec::with_capacity(n);
+        for _ in 0..n {
+            v.push(self.mat()?);
+        }
+        Some(v)
+    }
+    pub fn cell(&mut self) -> Option<Cell2> {
+        let (l, r, a) = (self.f()?, self.f()?, self.f()?);
+        let fam = self.s()?;
+        cell_from(l, r, a, fam)
+    }
+    pub fn site(&mut self) -> Option<OccupiedSite> {
+        let ops = self.mats()?;
+        let (x, y, a) = (self.f()?, self.f()?, self.f()?);
+        site_from(ops, x, y, a)
+    }
+}
+
+/// inject arbitrary (finite) parameters through the crate's own `Deserialize` impls; the value
+/// tree carries the doubles themselves, so no float text is involved.
+pub fn cell_from(l: f64, r: f64, a: f64, fam: &str) -> Option<Cell2> {
+    serde_json::from_value(json!({"length": l, "ratio": r, "angle": a, "family": fam})).ok()
+}
+
+pub fn wyckoff_from(ops: Vec<Transform2>) -> WyckoffSite {
+    WyckoffSite {
+        letter: 'a',
+        symmetries: ops,
+        num_rotations: 1,
+        mirror_primary: false,
+        mirror_secondary: false,
+    }
+}
+
+pub fn site_value(ops: Vec<Transform2>, x: f64, y: f64, a: f64) -> Option<Value> {
+    let w = serde_json::to_value(&wyckoff_from(ops)).ok()?;
+    Some(json!({"wyckoff": w, "x": x, "y": y, "angle": a}))
+}
+
+pub fn site_from(ops: Vec<Transform2>, x: f64, y: f64, a: f64) -> Option<OccupiedSite> {
+    serde_json::from_value(site_value(ops, x, y, a)?).ok()
+}
+
+pub fn pt_hex(p: &Point2<f64>) -> String {
+    format!("{} {}", fhex(p.x), fhex(p.y))
+}
+
+pub fn mats_hex<I: Iterator<Item = Transform2>>(it: I) -> String {
+    let v: Vec<String> = it.map(|t| mat_hex(&t)).collect();
+    format!("{} {}", v.len(), v.join(" ")).trim_end().to_string()
+}
+
+/// observe a basis handle behaviourally: current value, lower and upper clamp.
+pub fn basis_hex(basis: &mut Vec<StandardBasis>) -> String {
+    let mut s = format!("{}", basis.len());
+    for b in basis.iter_mut() {
+        let v = b.get_value();
+        b.set_value(f64::NEG_INFINITY);
+        let lo = b.get_value();
+        b.set_value(f64::INFINITY);
+        let hi = b.get_value();
+        // restore exactly (set_value clamps; write through the range first, then reset)
+        b.set_value(v);
+        s.push_str(&format!(" {} {} {}", fhex(v), fhex(lo), fhex(hi)));
+    }
+    s
+}
 
 pub fn mat_hex(t: &Transform2) -> String {
     let m: Matrix3<f64> = (*t).into();
@@ -52,6 +161,213 @@ fn exec_toks(t: &[&str]) -> Option<String> {
                 Err(e) => parse_err_class(&e.to_string()),
             })
         }
+        ("mat", op) => {
+            let mut k = Toks::new(&t[2..]);
+            match op {
+                "mul" => {
+                    let (a, b) = (k.mat()?, k.mat()?);
+                    Some(format!("ok {}", mat_hex(&(a * b))))
+                }
+                "apply" => {
+                    let a = k.mat()?;
+                    let p = Point2::new(k.f()?, k.f()?);
+                    Some(format!("ok {}", pt_hex(&(a * p))))
+                }
+                "new" => {
+                    let (r, x, y) = (k.f()?, k.f()?, k.f()?);
+                    Some(format!("ok {}", mat_hex(&Transform2::new(r, (x, y)))))
+                }
+                "position" => Some(format!("ok {}", pt_hex(&k.mat()?.position()))),
+                "periodic" => {
+                    let a = k.mat()?;
+                    let (p, o) = (k.f()?, k.f()?);
+                    Some(format!("ok {}", mat_hex(&a.periodic(p, o))))
+                }
+                _ => None,
+            }
+        }
+        ("wrap", "xy") => {
+            let mut k = Toks::new(&t[2..]);
+            let (p, o, x, y) = (k.f()?, k.f()?, k.f()?, k.f()?);
+            let tr = Transform2::new(0., (x, y)).periodic(p, o);
+            Some(format!("ok {}", pt_hex(&tr.position())))
+        }
+        ("cell", op) => {
+            let mut k = Toks::new(&t[2..]);
+            if op == "fromfamily" {
+                let fam: packing::CrystalFamily =
+                    serde_json::from_value(Value::String(k.s()?.to_string())).ok()?;
+                let c = Cell2::from_family(fam, k.f()?);
+                let v = serde_json::to_value(&c).ok()?;
+                return Some(format!(
+                    "ok {} {} {} {}",
+                    fhex(v["length"].as_f64()?),
+                    fhex(v["ratio"].as_f64()?),
+                    fhex(v["angle"].as_f64()?),
+                    v["family"].as_str()?
+                ));
+            }
+            let c = match k.cell() {
+                Some(c) => c,
+                None => return Some("err inject".to_string()),
+            };
+            match op {
+                "cart" => {
+                    let (x, y) = c.to_cartesian(k.f()?, k.f()?);
+                    Some(format!("ok {} {}", fhex(x), fhex(y)))
+                }
+                "area" => Some(format!("ok {}", fhex(c.area()))),
+                "ab" => Some(format!("ok {} {} {}", fhex(c.a()), fhex(c.b()), fhex(c.angle()))),
+                "center" => Some(format!("ok {}", pt_hex(&c.center()))),
+                "corners" => {
+                    let v: Vec<String> = c.get_corners().iter().map(pt_hex).collect();
+                    Some(format!("ok {}", v.join(" ")))
+                }
+                "iso" => Some(format!("ok {}", mat_hex(&c.to_cartesian_isometry(k.mat()?)))),
+                "images" => {
+                    let m = k.mat()?;
+                    let shells = k.i64()?;
+                    let zero = k.s()? == "1";
+                    Some(format!("ok {}", mats_hex(c.periodic_images(m, shells, zero))))
+                }
+                "dof" => {
+                    let mut b = c.get_degrees_of_freedom();
+                    Some(format!("ok {}", basis_hex(&mut b)))
+                }
+                _ => None,
+            }
+        }
+        ("site", op) => {
+            let mut k = Toks::new(&t[2..]);
+            match op {
+                "fromwyckoff" => {
+                    let w = wyckoff_from(k.mats()?);
+                    let s = OccupiedSite::from_wyckoff(&w);
+                    let v = serde_json::to_value(&s).ok()?;
+                    Some(format!(
+                        "ok {} {} {} {}",
+                        fhex(v["x"].as_f64()?),
+                        fhex(v["y"].as_f64()?),
+                        fhex(v["angle"].as_f64()?),
+                        s.multiplicity()
+                    ))
+                }
+                "positions" => {
+                    let s = match k.site() {
+                        Some(s) => s,
+                        None => return Some("err inject".to_string()),
+                    };
+                    Some(format!("ok {}", mats_hex(s.positions())))
+                }
+                "transform" => {
+                    let s = k.site()?;
+                    Some(format!("ok {}", mat_hex(&s.transform())))
+                }
+                "basis" => {
+                    let s = k.site()?;
+                    let rot = k.u64()?;
+                    let mut b = s.get_basis(rot);
+                    Some(format!("ok {}", basis_hex(&mut b)))
+                }
+                _ => None,
+            }
+        }
+        ("rng", op) => {
+            use rand::distributions::{Distribution, Uniform};
+            use rand::{Rng, RngCore, SeedableRng};
+            let mut k = Toks::new(&t[2..]);
+            let seed = k.u64()?;
+            let n = k.usize()?;
+            let mut rng = rand_pcg::Pcg64Mcg::seed_from_u64(seed);
+            let mut out = String::from("ok");
+            match op {
+                "raw" => {
+                    for _ in 0..n {
+                        out.push_str(&format!(" {:016x}", rng.next_u64()));
+                    }
+                }
+                "index" => {
+                    let m = k.usize()?;
+                    let d = Uniform::new(0, m);
+                    for _ in 0..n {
+                        let v: usize = d.sample(&mut rng);
+                        out.push_str(&format!(" {}", v));
+                    }
+                }
+                "range" => {
+                    for _ in 0..n {
+                        out.push_str(&format!(" {}", fhex(rng.gen_range(-0.5, 0.5))));
+                    }
+                }
+                "unit" => {
+                    for _ in 0..n {
+                        let v: f64 = rng.gen();
+                        out.push_str(&format!(" {}", fhex(v)));
+                    }
+                }
+                // the optimiser's per-step pattern: index, step draw, threshold
+                "mixed" => {
+                    let m = k.usize()?;
+                    let d = Uniform::new(0, m);
+                    for _ in 0..n {
+                        let i: usize = d.sample(&mut rng);
+                        let s: f64 = rng.gen_range(-0.5, 0.5);
+                        let u: f64 = rng.gen();
+                        out.push_str(&format!(" {} {} {}", i, fhex(s), fhex(u)));
+                    }
+                }
+                _ => return None,
+            }
+            Some(out)
+        }
+        ("basis", "seq") => {
+            // basis seq <ncells> v.. <nhandles> (addr min max).. <nops> (op h [arg]..)..
+            let mut k = Toks::new(&t[2..]);
+            let nc = k.usize()?;
+            let mut cells = Vec::new();
+            for _ in 0..nc {
+                cells.push(packing::SharedValue::new(k.f()?));
+            }
+            let nh = k.usize()?;
+            let mut hs: Vec<StandardBasis> = Vec::new();
+            for _ in 0..nh {
+                let a = k.usize()?;
+                let (lo, hi) = (k.f()?, k.f()?);
+                hs.push(StandardBasis::new(cells.get(a)?, lo, hi));
+            }
+            let nops = k.usize()?;
+            let mut out = String::from("ok");
+            for _ in 0..nops {
+                let op = k.s()?;
+                let h = k.usize()?;
+                match op {
+                    "set" => {
+                        let v = k.f()?;
+                        hs.get_mut(h)?.set_value(v);
+                    }
+                    "reset" => hs.get(h)?.reset_value(),
+                    "get" => out.push_str(&format!(" g{}", fhex(hs.get(h)?.get_value()))),
+                    "sample" => {
+                        let step = k.f()?;
+                        let raw = u64::from_str_radix(k.s()?, 16).ok()?;
+                        let mut r = ScriptRng(vec![raw], 0);
+                        out.push_str(&format!(" s{}", fhex(hs.get(h)?.sample(&mut r, step))));
+                    }
+                    "setsampled" => {
+                        let step = k.f()?;
+                        let raw = u64::from_str_radix(k.s()?, 16).ok()?;
+                        let mut r = ScriptRng(vec![raw], 0);
+                        hs.get_mut(h)?.set_sampled(&mut r, step);
+                    }
+                    _ => return None,
+                }
+                for c in cells.iter() {
+                    out.push_str(&format!(" {}", fhex(c.get_value())));
+                }
+                out.push_str(" |");
+            }
+            Some(out)
+        }
         ("tables", "group") => {
             let raw = t.get(2).copied().unwrap_or("");
             let name = if let Some(h) = raw.strip_prefix("hex:") { unshex(h)? } else { raw.to_string() };
@@ -73,5 +389,28 @@ fn exec_toks(t: &[&str]) -> Option<String> {
         }
         ("oracle", _) => crate::oracle::oracle(&t[1..]),
         _ => None,
+    }
+}
+
+/// a generator that replays scripted raw outputs (cycling), for pinning single draws
+pub struct ScriptRng(pub Vec<u64>, pub usize);
+
+impl rand::RngCore for ScriptRng {
+    fn next_u32(&mut self) -> u32 {
+        self.next_u64() as u32
+    }
+    fn next_u64(&mut self) -> u64 {
+        let v = self.0[self.1 % self.0.len()];
+        self.1 += 1;
+        v
+    }
+    fn fill_bytes(&mut self, dest: &mut [u8]) {
+        for b in dest.iter_mut() {
+            *b = self.next_u64() as u8;
+        }
+    }
+    fn try_fill_bytes(&mut self, dest: &mut [u8]) -> Result<(), rand::Error> {
+        self.fill_bytes(dest);
+        Ok(())
     }
 }
